@@ -65,20 +65,20 @@ var assumptions = []string{
 
 // ---------------------------------------------------------------- generator
 
-// Known defect classes are excluded by construction so that the search continues behind
-// them. C04_NOEXCL=K1,K3 (or "all") switches exclusions off - used only to validate a repair
-// of the corresponding defect, never by bin/check.
+// The defect classes K1-K6 found by this check were repaired in /repo by fix: commits (61a409b K1/K2/K5,
+// 1226a42 K3, 6afebb9 K4, c9ca632 K6): none is excluded any more, the witnesses are ordinary replay cases.
+// C04_EXCL=K1,K4 (or "all") brings the exclusion by construction of a class back (debugging only).
 var (
-	exclStuck            = !noExcl("K1")
-	exclRespecialise     = !noExcl("K2")
-	exclNestedLambda     = os.Getenv("C04_EXCL_K3") != "" // K3 is repaired in /repo (1226a42): not excluded, its witness is an ordinary replay case
-	exclUnaryMinus       = !noExcl("K4")
-	exclNestedTypeChange = !noExcl("K5")
-	exclManyArgs         = !noExcl("K6")
+	exclStuck            = excl("K1")
+	exclRespecialise     = excl("K2")
+	exclNestedLambda     = excl("K3")
+	exclUnaryMinus       = excl("K4")
+	exclNestedTypeChange = excl("K5")
+	exclManyArgs         = excl("K6")
 )
 
-func noExcl(k string) bool {
-	v := os.Getenv("C04_NOEXCL")
+func excl(k string) bool {
+	v := os.Getenv("C04_EXCL")
 	return v == "all" || strings.Contains(","+v+",", ","+k+",")
 }
 
